@@ -6,6 +6,7 @@
 package vbroker
 
 import (
+	"errors"
 	"bufio"
 	"encoding/base64"
 	"fmt"
@@ -13,6 +14,7 @@ import (
 	"os"
 	"strings"
 	"sync"
+	"sync/atomic"
 	"time"
 
 	"github.com/emitter-io/emitter/internal/broker"
@@ -136,6 +138,15 @@ type trackedConn struct {
 	net.Conn
 	once   sync.Once
 	closed chan struct{}
+	deaf   int32 // != 0: every Write fails (injected fault: reset / unreachable peer), reads still work
+}
+
+// Write fails once the fault has been injected, without touching the pipe.
+func (t *trackedConn) Write(p []byte) (int, error) {
+	if atomic.LoadInt32(&t.deaf) != 0 {
+		return 0, errors.New("verif: injected write failure")
+	}
+	return t.Conn.Write(p)
 }
 
 func (t *trackedConn) Close() error {
@@ -218,6 +229,10 @@ func (c *Client) SendRaw(b []byte) error {
 }
 
 // CloseSocket closes the client's end and waits until the broker has torn the connection down.
+// FailWrites makes every further write of the broker to this connection fail while the
+// connection stays open and subscribed (its read loop keeps blocking on the pipe).
+func (c *Client) FailWrites() { atomic.StoreInt32(&c.srv.deaf, 1) }
+
 func (c *Client) CloseSocket() {
 	c.conn.Close()
 	c.WaitClosed()
